@@ -366,8 +366,8 @@ func (g *gen) rewrite(n ast.Node) string {
 	case *ast.SendStmt:
 		g.useRT = true
 		k := g.uniq()
-		return fmt.Sprintf("{\n_t%d := simrt.Pre(%s)\nselect {\ncase %s <- %s:\ncase <-simrt.AbortCh():\nsimrt.Aborted()\n}\nsimrt.Post(_t%d)\n}",
-			k, g.site(n, "send"), g.text(x.Chan), g.text(x.Value), k)
+		return fmt.Sprintf("{\n_t%d := simrt.Pre(%s)\nfunc() {\ndefer simrt.Unwind(_t%d)\nselect {\ncase %s <- %s:\ncase <-simrt.AbortCh():\nsimrt.Aborted()\n}\n}()\nsimrt.Post(_t%d)\n}",
+			k, g.site(n, "send"), k, g.text(x.Chan), g.text(x.Value), k)
 
 	case *ast.ExprStmt: // close(ch)
 		c := g.isClose(x.X)
@@ -534,11 +534,11 @@ func (g *gen) rewriteSelect(sel *ast.SelectStmt) string {
 		b.WriteString("}\n}\n")
 	}
 	if def == nil {
-		fmt.Fprintf(&b, "if %sI < 0 {\nselect {\n", p)
+		fmt.Fprintf(&b, "if %sI < 0 {\nfunc() {\ndefer simrt.Unwind(%sT)\nselect {\n", p, p)
 		for i, cs := range cases {
 			fmt.Fprintf(&b, "%s\n%sI = %d\n", comm(i, cs), p, i)
 		}
-		b.WriteString("case <-simrt.AbortCh():\nsimrt.Aborted()\n}\n}\n")
+		b.WriteString("case <-simrt.AbortCh():\nsimrt.Aborted()\n}\n}()\n}\n")
 	}
 	fmt.Fprintf(&b, "simrt.Post(%sT)\nswitch %sI {\n", p, p)
 	for i, cs := range cases {
